@@ -476,6 +476,27 @@ Section Loop.
     Qed.
   End Paid.
 
+  (* [fuel] is only the structural argument of the recursion: any fuel that covers the remaining budget gives the
+     same result, so the dispatch loop never stops for lack of fuel *)
+  Section Fuel.
+    Hypothesis re_paid : forall ip s, rres_R paid (cr s) (reenter ip s).
+
+    Lemma loop_fuel_irrelevant : forall f1 f2 ip s,
+      (st_rem s <= N.of_nat f1)%N -> (st_rem s <= N.of_nat f2)%N ->
+      loop F bld P reenter f1 ip s = loop F bld P reenter f2 ip s.
+    Proof.
+      induction f1 as [|g1 IH]; intros f2 ip s H1 H2; destruct f2 as [|g2]; cbn [loop];
+        destruct (code_len P <=? ip)%N; try reflexivity; cbn [st_rem set_rem];
+        destruct (N.pred (st_rem s) =? 0)%N eqn:E0; try reflexivity; apply N.eqb_neq in E0; try lia.
+      pose proof (@step_count_rel paid paid_refl paid_trans F bld P reenter re_paid ip
+                    (tick (set_rem s (N.pred (st_rem s))))) as Hs.
+      rewrite tick_cr in Hs. cbn [st_count st_rem set_rem] in Hs.
+      destruct (step F bld P reenter ip _) as [ip' s'|s'|e ip' s'|a s']; try reflexivity.
+      cbn [sres_R] in Hs. unfold paid, cr in Hs. cbn [fst snd] in Hs.
+      apply IH; lia.
+    Qed.
+  End Fuel.
+
   (* the flat loop *)
   Lemma loop_flat_mono : forall rem rem' ip s,
     rem <= rem' -> ~ is_timeout (loop_flat F bld P reenter rem ip s) ->
@@ -533,6 +554,16 @@ Lemma run_at_paid F bld P max_instr : forall depth ip s,
 Proof.
   induction depth as [|d IH]; intros ip s; cbn [run_at]; [cbn; unfold paid; cbn; lia|].
   unfold run_loop. apply loop_paid. exact IH.
+Qed.
+
+(* at every nesting level of the real run, any fuel that covers the remaining budget computes `_run` *)
+Theorem dispatch_fuel_irrelevant : forall F bld P max_instr d fuel ip s,
+  (st_rem s <= N.of_nat fuel)%N ->
+  loop F bld P (run_at F bld P false max_instr d) fuel ip s
+  = run_loop F bld P (run_at F bld P false max_instr d) ip s.
+Proof.
+  intros. unfold run_loop. apply loop_fuel_irrelevant; [apply run_at_paid|assumption|].
+  rewrite N2Nat.id. lia.
 Qed.
 
 Lemma finish_state P r : st_count (snd (finish P r)) = st_count (res_state r) /\
